@@ -35,6 +35,7 @@ const (
 	yOrphanRevs             // the set's own revisions may be orphans (adoption path)
 	yStatusConflict         // the status write may hit a conflict and be retried
 	yCacheLosesSet          // the set may leave the informer cache while the reconcile is in flight
+	ySelectorShapes         // the selector may be empty ({} matches every pod) or a DoesNotExist expression (C15)
 )
 
 // sync monitor bits
@@ -132,6 +133,17 @@ func vBuildSync(N, R, K, opts int) *vSyncWorld {
 				sym.Disc("partition-negative")
 			} else {
 				sym.Disc("partition-non-negative")
+			}
+		}
+		if opts&ySelectorShapes != 0 {
+			// the CRD only requires the selector field to be present: these forms also match pods without labels
+			switch sym.Pick("selector", 3) {
+			case 1:
+				set.Spec.Selector = &metav1.LabelSelector{}
+				sym.Cover("empty selector")
+			case 2:
+				set.Spec.Selector = &metav1.LabelSelector{MatchExpressions: []metav1.LabelSelectorRequirement{{Key: "app", Operator: metav1.LabelSelectorOpDoesNotExist}}}
+				sym.Cover("DoesNotExist selector")
 			}
 		}
 		lim := sym.Int32("historyLimit")
